@@ -11,11 +11,11 @@
    still have room) and <hr> is empty.                                                            *)
 EXTENDS Integers, Sequences, TLC
 CONSTANTS Variant, MaxDepth, Cells
-Widths == {-10, -1, 0, 1, 2, 3, 5, 8, 20, 40, 80, 81, 200}
+Widths == {-10, -1, 0, 1, 2, 3, 5, 8, 20, 40, 80, 81, 200, 604, 1004}
 VARIABLES depth, kind, w0, leaf
 
-Indent(k) == CASE k = "bq" -> 1 [] k = "ul" -> 2 [] k = "media" -> 2 [] k = "h1" -> 2 [] k = "h6" -> 7
-Init == depth \in 0..MaxDepth /\ kind \in {"bq", "ul", "h6"} /\ w0 \in Widths /\ leaf \in {"text", "hr"}
+Indent(k) == CASE k = "bq" -> 1 [] k = "ul" -> 2 [] k = "media" -> 2 [] k = "h1" -> 2 [] k = "h4" -> 5 [] k = "h6" -> 7
+Init == depth \in 0..MaxDepth /\ kind \in {"bq", "ul", "h4", "h6"} /\ w0 \in Widths /\ leaf \in {"text", "hr"}
 Next == UNCHANGED <<depth, kind, w0, leaf>>
 Spec == Init /\ [][Next]_<<depth, kind, w0, leaf>>
 
